@@ -44,14 +44,25 @@ RawFew == {<<X, Lfn, Pid, 0>>, <<X, Lid, <<>>, 2>>, <<Pa, La, Pid, 0>>, <<Pab, L
 RawMid == ({X} \X {Lfn, La} \X {Pid, Pa, <<>>} \X {0, 1, 2}) \cup ({Pa, Pab} \X {Lid, Lab} \X {Pid, <<>>} \X {0, 1, 2})
 RawAll == ({X} \X {Lid, Lfn, La, Lab, Lv} \X {Pid, Pa, Pab, Pv, <<>>} \X {0, 1, 2, 3})
           \cup ({Pa, Pab, Pid, <<"ea","va">>} \X {Lid, Lfn, La, Lab} \X {Pid, Pa, <<>>} \X {0, 1, 2, 3})
-BestFew == {<<La, Pid, 0>>, <<La, Pa, 1>>}
-BestAll == {La, Lab, Lid} \X {Pid, Pa, Pab} \X {0, 1, 2}
+BestFew == {<<La, Pid, 0>>, <<La, Pa, 1>>, <<La, <<>>, 0>>}
+BestAll == {La, Lab, Lid} \X {Pid, Pa, Pab, <<>>} \X {0, 1, 2}
 WhereFew == {<<"environment_id", {1, 2}>>, <<"la", {1}>>, <<"index", 1>>}
 WhereAll == {<<"environment_id", {1, 2}>>, <<"environment_id", {3}>>, <<"ea", {1}>>, <<"learner_id", {1, 2}>>, <<"learner_id", {2, 3}>>,
              <<"la", {1}>>, <<"evaluator_id", {1}>>, <<"va", {2}>>, <<"index", 1>>, <<"index", 2>>}
-AllOps == {"fin", "where", "best", "raw"}
+WhereIFew == {<<"reward", ">", 5>>, <<"index", ">=", 2>>}
+WhereIAll == {<<"reward", ">", 5>>, <<"reward", "<=", 3>>, <<"reward", ">=", 9>>, <<"index", ">=", 2>>, <<"index", "=", 2>>, <<"index", "<", 2>>}
+AllOps == {"fin", "where", "wherei", "best", "raw"}
 FinRaw == {"fin", "raw"}
 FinOnly == {"fin"}
+(* ---- names of the parameter columns: plain, and names that contain or resemble the words of the API *)
+Nm(a, b, c, d, e) == [ea |-> a, eb |-> b, la |-> c, lb |-> d, va |-> e]
+NamesAll == {Nm("ea", "eb", "la", "lb", "va"),
+             Nm("fold_index", "index2", "learner", "full_name2", "evaluator"),
+             Nm("indexes", "environment_id2", "learner_id2", "family", "evaluator_id2"),
+             Nm("data_index", "environment", "full_names", "learner_idx", "reward2"),
+             Nm("x", "y", "l", "p", "n"),
+             Nm("reindexed", "Index", "name", "full name", "eval index"),
+             Nm("index_", "span", "learner_index", "id", "count")}
 (* ---- moving_average *)
 WNone == [k |-> "none", s |-> <<>>]
 WExp  == [k |-> "exp", s |-> <<>>]
